@@ -215,25 +215,35 @@ def gen_hash_order():
     body = m.group(1)
     if "FnvHasher::default()" not in body or "hasher.finish()" not in body:
         raise GenError("Meta::hash_self no longer uses FnvHasher::default()/finish()")
-    order = []
-    for w in re.finditer(r"hasher\.write\(&self\.([\w\.]+)\.(to_\w+)\(\)\);", body):
-        if w.group(2) != "to_be_bytes":
-            raise GenError("Meta::hash_self hashes %s with %s, expected to_be_bytes" % (w.group(1), w.group(2)))
-        if w.group(1) not in HASH_FIELD_NAMES:
-            raise GenError("Meta::hash_self hashes unknown field %s" % w.group(1))
-        order.append(HASH_FIELD_NAMES[w.group(1)])
-    n_writes = len(re.findall(r"hasher\.write", body))
-    if n_writes != len(order):
-        raise GenError("Meta::hash_self has a hasher.write this translator cannot read")
-    m2 = re.search(r"impl OldMeta \{.*?fn bytes\(&self\) -> bytes::Bytes \{(.*?)\n    \}", meta, flags=re.S)
+    def fields_fed(body_, sink, what):
+        """the field of `self` each `<sink>.write(&…)` feeds, in order.  Accepted forms: `self.f.to_be_bytes()`
+        and `helper(self.f)` for a helper of this file (the encoding a helper produces is not read here: a
+        wrong width or byte order makes the model's checksum differ from the one in every real header, which
+        the correspondence run reports); an explicit non-big-endian conversion is refused."""
+        out = []
+        for w in re.finditer(sink + r"\.write\(&(.*?)\);", body_, flags=re.S):
+            e = w.group(1)
+            fs = re.findall(r"self\.([\w\.]+?)(?:\.to_\w+\(\))?(?=[\s\),]|$)", e)
+            fs = [f for f in fs if f in HASH_FIELD_NAMES]
+            conv = re.findall(r"\.(to_\w+)\(\)", e)
+            if any(c != "to_be_bytes" for c in conv):
+                raise GenError("%s hashes %s with %s, expected big-endian" % (what, e.strip()[:40], conv))
+            if len(fs) != 1:
+                raise GenError("%s has a %s.write this translator cannot read: %s" % (what, sink, e.strip()[:60]))
+            out.append(HASH_FIELD_NAMES[fs[0]])
+        if len(re.findall(sink + r"\.write", body_)) != len(out):
+            raise GenError("%s has a %s.write this translator cannot read" % (what, sink))
+        return out
+    order = fields_fed(body, "hasher", "Meta::hash_self")
+    # the legacy digest input: the method of `impl OldMeta` that builds a `bytes::Bytes` through a writer `w`
+    om = re.search(r"impl OldMeta \{(.*?)\n\}", meta, flags=re.S)
+    m2 = re.search(r"fn \w+\(&self\) -> bytes::Bytes \{(.*?)\n    \}", om.group(1), flags=re.S) if om else None
     if not m2:
-        raise GenError("OldMeta::bytes not found")
-    old_order = []
-    for w in re.finditer(r"w\.write\(&self\.([\w\.]+)\.(to_\w+)\(\)\);", m2.group(1)):
-        if w.group(2) != "to_be_bytes" or w.group(1) not in HASH_FIELD_NAMES:
-            raise GenError("OldMeta::bytes changed")
-        old_order.append(HASH_FIELD_NAMES[w.group(1)])
-    valid = re.search(r"impl Meta \{\s*pub\(crate\) fn valid\(&self\) -> bool \{\s*self\.hash == self\.hash_self\(\)\s*\}", meta)
+        raise GenError("OldMeta: the function building the digest input was not found")
+    old_order = fields_fed(m2.group(1), "w", "OldMeta digest input")
+    if not old_order:
+        raise GenError("OldMeta digest input changed")
+    valid = re.search(r"fn valid\(&self\) -> bool \{\s*self\.hash == self\.hash_self\(\)\s*\}", meta[meta.index("impl Meta {"):meta.index("impl OldMeta {")] if "impl Meta {" in meta and "impl OldMeta {" in meta else "")
     if not valid:
         raise GenError("Meta::valid is no longer `self.hash == self.hash_self()`")
     txt = ["/- GENERATED by /verif/tools/gen_all.py from /repo/src/meta.rs. Do not edit. -/",
